@@ -34,6 +34,10 @@ namespace parmcb {
             std::unordered_set<Vertex> unreached;
             VertexIt ui, uiend;
             for (boost::tie(ui, uiend) = boost::vertices(g); ui != uiend; ++ui) {
+                if (boost::out_degree(*ui, g) == 1) {
+                    *spanning_forest_edges++ = *boost::out_edges(*ui, g).first;
+                    continue;
+                }
                 unreached.insert(*ui);
             }
 
